@@ -19,5 +19,5 @@ func checkC01(p *Prog, r *Report) {
 	})
 	wireAolStore(p, r, "C01")
 	checkInitGenesisCallers(p, r, "C01", "x/aol")
-	r.Floor("in-loop-decode-targets(x/aol)", checkLoopFreshDecode(p, r, "C01", func(fn *ssa.Function) bool { return InPkgs(fn, "x/aol") }), 4)
+	r.Floor("in-loop-decode-targets(x/aol)", checkLoopFreshDecode(p, r, "C01", func(fn *ssa.Function) bool { return InPkgs(fn, "x/aol") }), 2)
 }
